@@ -349,5 +349,7 @@ MANIFEST = {
     "category": "model_checking",
     "text": "The spec has one action per critical section or public call (swarm open/close, Connected, Disconnected with its address section under addrMu, IdentifyWait, identify response consumed / failed / timed out, push consumed / failed); messages are records of field classes; lists are token sequences with weights so the real caps (500, 20, 1024; pstoremem 64, 128) are used unscaled. TLC checks on every reachable state that F's entry never changes, a stored key is the peer's, retained numbers are capped, the connected lifetime exists only while a connection (or its pending Disconnected) does, a record contributes only if valid for and signed by R, failures change nothing, and that every wait is released. The replay drives every (state, action, argument) of the printed graphs through the real code; L1 monitors are computed from observables only (peerstore contents of every peer, events, wait channels, expiry in virtual time).",
     "note": "Trusted: TLC, the stub swarm (ordering of notifications as the real swarm guarantees), the recording decorator, testing/synctest. The exact retained sets where the peerstore evicts by its own choice are compared by count and universe only. Concurrency inside consumeMessage beyond the addrMu section is not interleaved (the writes commute with Disconnected); the lock discipline is checked at every Connectedness read / address write and a gate probe exercises the interleaving whenever the lock is not held. Lifetime classes between steps are L2 (recorded TTL arguments); PushSupport bookkeeping and the observed address are not modelled.",
-    "engines": [{"name": "C13_Identify", "path": "spec/C13_Identify.tla", "serves_properties": ["C13"], "kind_free_text": "TLA+ spec + TLC exhaustive (safety + liveness) + full-transition replay + lifetime probing in virtual time + section gate probe"}],
+    "engines": [{"name": "C13_Identify", "path": "spec/C13_Identify.tla", "serves_properties": ["C13"], "kind_free_text": "TLA+ spec + TLC exhaustive (safety + liveness) + full-transition replay + lifetime probing in virtual time + section gate probe"},
+                {"name": "C13_Push", "path": "spec/C13_Push.tla", "serves_properties": ["C13"],
+                 "kind_free_text": "extension engine: TLA+ spec of the identify push / snapshot side + TLC exhaustive (safety, convergence as liveness) + full-transition replay through gates on the real idService + TLC validation of gate-free concurrent runs against the observable-level spec C13_PushObs.tla"}],
 }
